@@ -1,6 +1,7 @@
 import Aegean.Driver.Common
 import Aegean.Generated.C03
 import Aegean.Model.C03
+import Aegean.Model.C03Gen
 import Aegean.Spec.C03
 
 namespace Drv.C03
@@ -111,16 +112,16 @@ def handle (ws : List String) : String :=
     | _, _, _, _ => "bad-op"
   | ["palimit", x] =>
     match parseFloat? x with
-    | some x => showFloat (paLimit 64 x)
+    | some x => showFloat (paLimitG 64 x)
     | none => "bad-op"
   | ["rawrap", x] =>
     match parseFloat? x with
-    | some x => showFloat (raWrap x)
+    | some x => showFloat (raWrapG x)
     | none => "bad-op"
   | "fixshape" :: fs =>
     match fs.mapM parseFloat? with
     | some [a, b, pa, ea, eb] =>
-      let s := fixShape { a := a, b := b, pa := pa, errA := ea, errB := eb : Shape Float }
+      let s := fixShapeG { a := a, b := b, pa := pa, errA := ea, errB := eb : Shape Float }
       " ".intercalate ([s.a, s.b, s.pa, s.errA, s.errB].map showFloat)
     | _ => "bad-op"
   | "row" :: flags :: raStr :: decStr :: fs =>
